@@ -339,5 +339,17 @@ impl DisplacedTable {
 //@ end-fn
 //@ end-impl
 
+//@ item core-relations/src/uf/mod.rs struct Canonicalizer
+
+//@ impl core-relations/src/uf/mod.rs impl ValueRebuilder for Canonicalizer<'_> => impl Canonicalizer<'_>
+//@ fn rebuild_val
+//@ ret r
+//@ at sig
+        requires self.table.inv(),
+        // C01/C14: the rebuilder handed to tables and containers maps every id to its canonical id
+        ensures r.ix() == root(self.table.p(), val.ix()),
+//@ end-fn
+//@ end-impl
+
 } // verus!
 fn main() {}
